@@ -1,8 +1,8 @@
 package props
 
 import (
-	"strings"
 	"fmt"
+	"strings"
 	"time"
 
 	"cosmossdk.io/math"
